@@ -29,7 +29,7 @@ EXPECTED = {
     # __setattr__, positional-only / keyword-only forwarding, dict | and str.removeprefix, numpy comparisons / masks / where / sort)
     "t_abc_mro_getattr": "111127060*u", "t_args_forwarding": "22263631*u", "t_cached_property_setattr": "330010816*u", "t_dataclass_frozen": "3101109*u",
     "t_dict_str_misc": "5148312729*u", "t_enum_features": "1131147*u", "t_exceptions": "1732371*u", "t_functools_itertools": "3251434*u",
-    "t_namedtuple_methods": "12125573*u", "t_numpy_more": "323288383/2*u",
+    "t_namedtuple_methods": "12125573*u", "t_numpy_more": "323288383/2*u", "t_numpy_vectorised": "415788*u",
     "t_star_kwargs": "21*u", "t_lazy_interleave": "51*u", "t_string_ops": "50*u", "t_try_finally": "111*u", "t_walrus_fstring": "3 + 11*u", "t_while_forelse": "13*u",
 }
 
